@@ -153,7 +153,7 @@ package notify
 // per integration of a receiver: wait for the cluster position, de-duplicate against the log, deliver with retries,
 // and only then record the notification - in this order.
 //@ func createReceiverStage
-//@   props C20 C04
+//@   props C20 C04 C10
 //@   ensures [one-pipeline-per-integration] typeis(result, FanoutStage) && len(unbox(result, FanoutStage)) == len(integrations)
 //@   ensures [stage-order] forall k int :: 0 <= k && k < len(integrations) ==> (typeis(unbox(result, FanoutStage)[k], MultiStage)
 //@             && len(unbox(unbox(result, FanoutStage)[k], MultiStage)) == 4
